@@ -4,14 +4,14 @@ import numpy as np
 import common
 from common import cN, cZ, cnat, cbool, clist, copt, cpair
 
-PROOF_FILES = ['Proofs/Layers.v', 'Proofs/ConvT.v', 'Proofs/Conv2.v']
+PROOF_FILES = ['Proofs/Layers.v', 'Proofs/ConvT.v', 'Proofs/Conv2.v', 'Proofs/Dropout.v']
 ASSUMPTIONS = [
     'inputs and parameters are small integers held in float64, so the linear layers are exact and compared by equality; normalisation layers are compared within 1e-9 relative',
     'the reference is an independent numpy implementation of the documented formulas as direct sums (harness/c12_ref.py); the Gallina model covers Dense, 1-D Conv (all padding modes, stride, '
     'kernel dilation, groups), 1-D pooling, Embed and the statistics of the normalisation layers',
     'dtype promotion, precision, dot_general / conv_general_dilated injection and axis_name statistics are not covered',
 ]
-HEADER = 'From Coq Require Import QArith Qabs.\nFrom Flaxm Require Import Lib.Harness Model.Layers.\n'
+HEADER = 'From Coq Require Import QArith Qabs.\nFrom Flaxm Require Import Lib.Harness Model.Layers Model.Dropout.\n'
 
 
 def ints(rng, shape, lo=-3, hi=3):
@@ -236,6 +236,9 @@ def run(chk):
     tol = 1e-9 if c['layer'] == 'norm' or (c['layer'] == 'pool' and c['op'] == 'avg') else 0.0
     if c['layer'] == 'dropout':
       check_dropout(chk, c, r)
+      row = c12_coq.row(c, r)
+      if row is not None:
+        rows.append((c, o, row))
       continue
     ref = r['ref']
     MASK[0] = np.broadcast_to(np.array(c['mask'], dtype=bool), np.shape(c['x'])) if c.get('mask') is not None and c['layer'] == 'norm' else None
@@ -306,5 +309,15 @@ def check_dropout(chk, c, r):
     m2 = np.array(r['linen_repeat']['ok']['data']) == 0
     if not np.array_equal(m1, m2):
       chk.violation('oracle', 'the Dropout mask depends on the data (same key, different input, different positions dropped)', {'case': c})
+  # the mask is the Bernoulli(1 - rate) draw of the key on the broadcast shape: drawn here independently for the key passed as rng=
+  if 'bits_rng' in r and not c['deterministic'] and 'ok' in r.get('linen_rng', {}):
+    x = np.array(c['x'], float)
+    bshape = list(x.shape)
+    for d in c['broadcast_dims']:
+      bshape[d] = 1
+    m = np.broadcast_to(np.array(r['bits_rng'], bool).reshape(bshape), x.shape)
+    y = np.array(r['linen_rng']['ok']['data']).reshape(r['linen_rng']['ok']['shape'])
+    if y.shape != x.shape or not np.array_equal(y != 0, m):
+      chk.violation('oracle', 'Dropout(rng=key) does not drop exactly the positions where bernoulli(key, 1 - rate, broadcast shape) is False', {'case': c, 'output': r['linen_rng']['ok'], 'mask': r['bits_rng']})
   if 'ok' in r['nnx'] and 'ok' in r['nnx_call_rngs'] and r['nnx']['ok'] != r['nnx_call_rngs']['ok']:
     chk.violation('oracle', 'nnx.Dropout gives different masks for the same stream passed at construction and at call time', {'case': c})
